@@ -135,7 +135,6 @@ def thmHolds (z : Zone) (o : LName) (q : Query) : Bool :=
 
 /-- classes of `Model/AuthZoneSignedDev.lean` (DO=1 on an NSEC-signed zone) -/
 def signedClassesOf (z : Zone) (o : LName) (q : Query) : List String :=
-  (if SDev.nxNoWildcardDenial z o q then ["nsec-no-wildcard-denial"] else []) ++
   (if SDev.soaQueryWildcardNoProof z o q then ["soa-query-wildcard-no-proof"] else []) ++
   (if SDev.wildcardExpansionNotProven z o q then ["wildcard-expansion-not-proven"] else [])
 
